@@ -52,7 +52,9 @@ Den(prog, i, cur, units, viol, ctx) ==
   ELSE IF name \in {"finish", "finish_one", "finish_error"} \/ (name = "drop" /\ prog[i].st = "r") THEN
      LET auto == nc # 0 /\ Len(cur.cells) # 0
          rows == IF auto THEN Append(cur.rows, cur.cells) ELSE cur.rows
-         v1 == IF auto /\ Len(cur.cells) # nc THEN {V("C03", ctx.at, "incomplete last row accepted")} ELSE {}
+         \* a drop cannot refuse: dropping a row writer with a partial, contradicting row is shim misuse
+         v1 == IF auto /\ Len(cur.cells) # nc
+               THEN {V(IF name = "drop" THEN "MISUSE" ELSE "C03", ctx.at, "incomplete last row accepted")} ELSE {}
          u == IF name = "finish_error"
               THEN (IF nc = 0 THEN [k |-> "err", kind |-> o.kind, msg |-> o.msg]
                     ELSE [k |-> "rs", cols |-> cur.cols, rows |-> rows, term |-> "err", kind |-> o.kind, msg |-> o.msg])
